@@ -933,9 +933,24 @@ class PositivityC04(Monitor):
         if sim.stop_tick is not None:
             n = min(n, sim.stop_tick)
         self.probes = {(t - 1) % n + 1: p for t, p in self.probes.items()}
+        # the smallest of the per-assembly / gap limits DASSH computed itself
+        try:
+            self.limit = float(np.min(r.min_dz['dz']))
+        except (AttributeError, KeyError, ValueError, TypeError):
+            self.limit = None
 
     # -- invariants ----------------------------------------------------------
     def on_tick_begin(self, sim, r, z, dz, step):
+        # every step actually marched stays within DASSH's own limit (planes
+        # are rounded to 1e-12 m, hence the absolute allowance)
+        if self.limit is not None:
+            sim.probe('c04.step_vs_limit_checked')
+            if dz > self.limit + 2e-12:
+                sim.violate(
+                    'positivity.step_exceeds_limit', f'tick {step}',
+                    f'step {dz!r} marched at z={z!r} exceeds the smallest '
+                    f'stability limit {self.limit!r} DASSH computed '
+                    f'(req_dz={float(r.req_dz)!r})', {'step_limit'})
         self.pd0 = sum(sum(a._power_delivered.values())
                        for a in r.assemblies)
         if step == 1:
